@@ -204,13 +204,17 @@ func (lv *LeafVariants) GetHighestPrecedence(onlyNewOrUpdated bool, includeDefau
 		// start comparing priorities and choose the one with the
 		// higher prio (lower number)
 		if highest.Priority() > e.Priority() {
-			secondHighest = highest
-			highest = e
-		} else {
-			// check if the update is at least higher prio (lower number) then the secondHighest
-			if secondHighest == nil || secondHighest.Priority() > e.Priority() {
-				secondHighest = e
-			}
+			e, highest = highest, e
+		}
+		// e is now the lower precedence entry of the two. It is a candidate for the secondHighest, which
+		// is only used if the highest is marked for deletion. Entries that are themselfs marked for
+		// deletion can never take over and must not hide a remaining entry.
+		if e.GetDeleteFlag() {
+			continue
+		}
+		// check if the update is at least higher prio (lower number) then the secondHighest
+		if secondHighest == nil || secondHighest.Priority() > e.Priority() {
+			secondHighest = e
 		}
 	}
 
